@@ -161,6 +161,51 @@ pub fn run(ctx: &Ctx) {
         ctx.merge(t);
         ctx.space("assembled by call sequences with rejected and repeated calls: TXT with over-long strings refused between accepted ones (96 shapes), SVCB with parameters set repeatedly and an over-long value refused (96 shapes)", n_as, "complete");
     }
+    {
+        // every TYPE code under every class and with the cache-flush bit: a record of a type
+        // the reference has a schema for carries its base value, any other code opaque RDATA
+        let codes: Vec<u16> = (0..=65535u16).collect();
+        let chunks: Vec<&[u16]> = codes.chunks(512).collect();
+        let total = std::sync::atomic::AtomicU64::new(0);
+        par_shards(ctx, &chunks, |cs, t: &mut Tally| {
+            for code in cs.iter() {
+                if *code == 41 {
+                    continue;
+                }
+                let rdata = match crate::refmodel::schema::schema(*code) {
+                    Some(s) => gen::base_rr(s).rdata,
+                    None if crate::bind::library_has_no_variant_for(*code) => RefRData::Opaque { code: *code, data: crate::refmodel::B(vec![(*code >> 8) as u8, *code as u8, 0x5a]) },
+                    None => continue,
+                };
+                for class in [1u16, 2, 3, 4, 254] {
+                    for cf in [false, true] {
+                        for sect in 0..3 {
+                            // the full product for codes near known ones, one section otherwise
+                            if sect != (*code as usize + class as usize) % 3 && !(*code < 300 || *code >= 65280 || (32768..32780).contains(code)) {
+                                continue;
+                            }
+                            let mut p = RefPacket { id: *code, flags: F_QR, ..Default::default() };
+                            let rec = RefRR { name: crate::refmodel::RefName::txt("t.example"), class, cache_flush: cf, ttl: 0x0001_0203, rdata: rdata.clone() };
+                            match sect {
+                                0 => p.answers.push(rec),
+                                1 => p.authority.push(rec),
+                                _ => p.additional.push(rec),
+                            }
+                            t.evals += 1;
+                            t.nontrivial += 1;
+                            total.fetch_add(1, std::sync::atomic::Ordering::Relaxed);
+                            let f = check_packet(&p);
+                            t.outcome(if f.is_empty() { "equal" } else { "differs" });
+                            if !f.is_empty() {
+                                ctx.violations(f);
+                            }
+                        }
+                    }
+                }
+            }
+        });
+        ctx.space("every 16-bit TYPE code (base value of its schema, opaque RDATA where the library has no variant) x 5 classes x cache-flush bit, in one section (all three for codes below 300, private-use and around 32768)", total.load(std::sync::atomic::Ordering::Relaxed), "complete");
+    }
     for i in [200usize, space.len() / 2, space.len() - 1] {
         ctx.sample(json!({"kind": "packet", "packet": space[i.min(space.len() - 1)]}));
     }
